@@ -10,6 +10,8 @@ import (
 
 	"github.com/uptrace/bun"
 	"github.com/uptrace/bun/dialect/pgdialect"
+	"go.opentelemetry.io/otel/trace"
+	nooptracer "go.opentelemetry.io/otel/trace/noop"
 
 	ledger "github.com/formancehq/ledger/internal"
 	ledgercontroller "github.com/formancehq/ledger/internal/controller/ledger"
@@ -31,8 +33,28 @@ type World struct {
 	Hook   pgsim.CallHook
 	// Listener receives the events of every ledger controller created through Sys.
 	Listener ledgercontroller.Listener
+	// Span, when set, is called at the start of every tracing span of the ledger store
+	// (BeginTX, Commit, Rollback, InsertLog, …), on the goroutine of the request and
+	// before the driver calls of that span: a deterministic synchronisation point BETWEEN
+	// two driver calls (e.g. name=="Commit": the last statement of the transaction has
+	// returned, the sql COMMIT has not been issued yet). The tracer is otherwise the
+	// no-op tracer the store uses by default.
+	Span func(ctx context.Context, name string)
 
 	hookMu sync.Mutex
+}
+
+// spanTracer is the OpenTelemetry no-op tracer plus the World.Span callback.
+type spanTracer struct {
+	nooptracer.Tracer
+	w *World
+}
+
+func (t spanTracer) Start(ctx context.Context, name string, opts ...trace.SpanStartOption) (context.Context, trace.Span) {
+	if h := t.w.Span; h != nil {
+		h(ctx, name)
+	}
+	return t.Tracer.Start(ctx, name, opts...)
 }
 
 func registerModels(db *bun.DB) {
@@ -58,7 +80,7 @@ func Attach(pg *pgsim.DB) *World {
 	registerModels(w.Bun)
 	w.Driver = driver.New(
 		w.Bun,
-		ledgerstore.NewFactory(w.Bun),
+		ledgerstore.NewFactory(w.Bun, ledgerstore.WithTracer(spanTracer{w: w})),
 		bucket.NewDefaultFactory(),
 		systemstore.NewStoreFactory(),
 	)
